@@ -34,4 +34,11 @@ for sid in ids:
         subprocess.run(["git", "-C", "/repo", "checkout", "--", "."])
         for p, txt in saved.items():
             open(os.path.join(V, "evidence", p + ".json"), "w").write(txt)
-json.dump(out, open(os.path.join(V, "seeded", "last_run.json"), "w"), indent=1)
+# merge into the record of the last runs (one entry per seeded change: its most recent run)
+lp = os.path.join(V, "seeded", "last_run.json")
+try:
+    prev = json.load(open(lp))
+except Exception:
+    prev = {}
+prev.update(out)
+json.dump(prev, open(lp, "w"), indent=1)
